@@ -136,11 +136,15 @@ type Exec struct {
 	initDone    map[*ssa.Package]bool
 	inInit      bool
 	discovering int
+	mergedDepth int
+	curLoop     *loopCtx
 	recFuel     map[*ssa.Function]int
 	nFrame      int
 	frameOff    bool
 	unroll      bool
 	assumeFns   map[string]bool
+	ranges      map[*Term]*rangeInfo
+	rangeOfMap  map[*Term]*Term
 	summariesUsed []string
 	trustedUsed []string
 }
@@ -152,7 +156,7 @@ type iterRole struct {
 }
 
 func NewExec(c *Ctx, p *Program) *Exec {
-	return &Exec{c: c, prog: p, maxSteps: 400000, iterSrc: map[*Term]iterRole{}, iterSources: map[int]*iterSource{}, iterOf: map[*Term]int{}, cellType: map[int]types.Type{}, cellName: map[int]string{}, cover: map[*ssa.Function]bool{}, globals: map[string]*ssa.Global{}, globalVals: map[string]*Term{}, initCells: map[int]*Term{}, initDone: map[*ssa.Package]bool{}}
+	return &Exec{c: c, prog: p, maxSteps: 400000, iterSrc: map[*Term]iterRole{}, iterSources: map[int]*iterSource{}, iterOf: map[*Term]int{}, cellType: map[int]types.Type{}, cellName: map[int]string{}, cover: map[*ssa.Function]bool{}, globals: map[string]*ssa.Global{}, globalVals: map[string]*Term{}, initCells: map[int]*Term{}, rangeOfMap: map[*Term]*Term{}, initDone: map[*ssa.Package]bool{}}
 }
 
 func NewState() *State {
@@ -1167,9 +1171,26 @@ func (x *Exec) runFrom(fr *Frame, st *State, b *ssa.BasicBlock, i int) []Outcome
 			case *ssa.Send, *ssa.Select:
 				return abortOut(st, "channel operation in %s", fr.fn)
 			case *ssa.Range:
-				return abortOut(st, "range over map/string in %s", fr.fn)
+				if err := x.rangeStart(fr, st, ins); err != nil {
+					return abortOut(st, "%v in %s", err, fr.fn)
+				}
 			case *ssa.Next:
-				return abortOut(st, "range next in %s", fr.fn)
+				outs, _, err := x.rangeNext(fr, st, ins)
+				if err != nil {
+					return abortOut(st, "%v in %s", err, fr.fn)
+				}
+				if len(outs) == 1 {
+					st = outs[0].st
+					fr.env[ins] = outs[0].val
+					continue
+				}
+				var res []Outcome
+				for _, o := range outs {
+					f2 := fr.clone()
+					f2.env[ins] = o.val
+					res = append(res, x.runFrom(f2, o.st, b, i+1)...)
+				}
+				return res
 			case *ssa.SliceToArrayPointer:
 				return abortOut(st, "slice to array pointer in %s", fr.fn)
 			case *ssa.Return:
